@@ -430,6 +430,13 @@ impl ReactCache
 
                 // Need to do this in a separate step due to borrow checker on world mut access.
                 for command in commands_buff.drain(..) {
+                    #[cfg(feature = "verif")]
+                    if let ReactionCommand::EntityReaction{ reaction_source, reaction_type, reactor } = &command
+                    {
+                        crate::verif::emit(crate::verif::VerifEvent::ReactionScheduled{
+                            kind: crate::verif::reaction_kind(*reaction_type), target: **reactor, source: *reaction_source
+                        });
+                    }
                     world.commands().queue(command);
                 }
 
@@ -437,6 +444,10 @@ impl ReactCache
                 let Some(reactors) = self.component_reactors.get(&checker.component_id) else { continue; };
                 for handle in reactors.removal_callbacks.iter()
                 {
+                    #[cfg(feature = "verif")]
+                    crate::verif::emit(crate::verif::VerifEvent::ReactionScheduled{
+                        kind: crate::verif::reaction_kind(rtype), target: *handle.sys_command(), source: *entity
+                    });
                     world.commands().queue(
                             ReactionCommand::EntityReaction{
                                 reaction_source : *entity,
@@ -519,6 +530,10 @@ impl ReactCache
             // queue despawn callbacks
             for handle in despawn_reactors.drain(..)
             {
+                #[cfg(feature = "verif")]
+                crate::verif::emit(crate::verif::VerifEvent::ReactionScheduled{
+                    kind: crate::verif::VerifCommandKind::Despawn, target: *handle.sys_command(), source: despawned_entity
+                });
                 world.commands().queue(
                         ReactionCommand::Despawn{
                             reaction_source : despawned_entity,
